@@ -10,6 +10,8 @@ WHITELIST = [
     "internal/fs", "cmd/restic",
 ]
 T4PKGS = ["internal/repository"]
+# packages compiled against the simulated disk instead of package os (simify T8)
+T8PKGS = ["internal/backend/local"]
 
 SIM_ASSUME = [
     "real Go toolchain go1.25.10, testing/synctest bubble, GOMAXPROCS=1 per worker process",
@@ -406,6 +408,24 @@ PROPS = {
              "distinct = distinct event-log hash among runs with a fired fault",
         real_vs_stub="real: retry.Backend, cenkalti/backoff; simulated: wrapped store, clock",
         assumptions=SIM_ASSUME,
+    ),
+    "C36": dict(
+        pkg="internal/backend/local", test="TestVerifC36", level="fault_enumeration", quick_s=45, thorough_s=900,
+        text="the real local backend (Save/List/Load/Stat/Create/Open) compiled against a simulated disk instead of package os (simify T8): 1-3 "
+             "savers store packs, indexes, snapshots, locks, keys and the config (1-1500 bytes, written in one or several chunks, retried on "
+             "failure, optionally over an existing file or into missing directories) under the seeded scheduler, optionally next to a reader "
+             "that lists and loads while they run; every file system call is a scheduling point, may fail (ENOSPC/EIO/EACCES/EDQUOT/EMFILE/"
+             "EINTR, short writes) and may be preceded by a crash image in which an arbitrary subset of the not yet fsynced directory operations "
+             "(create, rename, unlink, mkdir) and data writes (any subset, last one torn at a block boundary, zero-filled preallocation) "
+             "persisted; on every image, at the end of the run, and in every live read, each listed entry whose name is a valid ID (or the config) must "
+             "load completely and equal a content that was passed to Save under that name, and nothing that was never saved may be listed under an ID name",
+        note="the persistence model is weaker than ext4/xfs (any subset instead of ordered journal commits); "
+             "the design's strace-based variant was replaced by this rewrite-based one, which needs no ptrace and is replayable",
+        design_ref="3 / C36",
+        rule="one run = one plan x schedule x faults x up to 9 crash images; distinct = distinct (case, event-log hash)",
+        real_vs_stub="real: backend/local (Save, List, Load, Stat, Create, Open, fsyncDir, setFileReadonly), backend/layout, backend/util; simulated: "
+                     "the file system (package crashdisk standing in for package os and fileio.PreallocateFile)",
+        assumptions=SIM_ASSUME + ["fsync of a file makes its data durable; fsync of a directory makes its entries durable; a rename is atomic"],
     ),
     "C37": dict(
         pkg="internal/backend/sema", test="TestVerifC37", level="exploration", quick_s=25, thorough_s=600,
